@@ -50,6 +50,15 @@ Theorem C12_documented_regex_agrees : forall (s : text) (n : N),
     /\ exists e, get_cap c 0 = Some (0, e).
 Proof. exact documented_regex_agrees. Qed.
 
+(* ... and conversely: a match of the documented regex that starts at offset 0 whose group 1 parses
+   as a u32 n is a reference n for Breadlog.  Together: Breadlog treats the message as referenced
+   with n  iff  the documented regex matches at the very start of the message with group 1 = n. *)
+Theorem C12_documented_regex_converse : forall (s : text) (c : caps) (se : N * N) (e n : N),
+  captures re_documented s = Some c -> get_cap c 0 = Some (0, e) ->
+  get_cap c 1 = Some se -> parse_u32 (cap_text s se) = Some n ->
+  extract_reference the_params s = Some n.
+Proof. exact documented_regex_converse. Qed.
+
 (* decimal printing and u32 parsing are inverse on the whole ID range *)
 Theorem C12_dec_parse : forall n : N, n <= 4294967295 -> parse_u32 (dec n) = Some n.
 Proof. exact parse_u32_dec. Qed.
